@@ -73,6 +73,12 @@ MUTANTS = [
     ("C16-end-keeps-going", "C16", "compiler.py", "        except CompilerStopIteration:\n            pass\n\n        return data", "        except CompilerStopIteration:\n            data += b\"\\x00\"\n\n        return data", 1),
     ("C16-once-off-by-one", "C16", "metacommands.py", 'if state["compiler"].times_file_compiled[state["filename"]] > 1:', 'if state["compiler"].times_file_compiled[state["filename"]] > 2:', 1),
     ("C16-new-token-cache", "C16", "types.py", "    def resolve(self, state):\n        return state[\"emit_address\"]", "    def resolve(self, state):\n        if not hasattr(self, \"cached\"):\n            self.cached = state[\"emit_address\"]\n        return self.cached", 1),
+    ("C10-register-case", "C10", "insns.py", "not operand.is_necessarily_label and operand.name.lower() in REGISTER_NAMES:", "not operand.is_necessarily_label and operand.name in REGISTER_NAMES:", 1),
+    ("C10-dict-contains-case", "C10", "containers.py", "return isinstance(key, str) and key.lower() in self.container", "return isinstance(key, str) and key in self.container", 1),
+    ("C10-skip-tabs", "C10", "context.py", 'if self.code[self.pos].strip() == "":', 'if self.code[self.pos] in " \\n":', 1),
+    ("C17-tab-width", "C17", "context.py", '.count("\\t") * 3', '.count("\\t") * 4', 1),
+    ("C17-span-mixed", "C17", "insns.py", "(operand.ctx_start, operand.ctx_end, \"...but this value does not look like a register\")", "(operand.ctx_start, insn.ctx_end, \"...but this value does not look like a register\")", 1),
+    ("C17-line-number", "C17", "context.py", 'line_no = self.code[:self.pos].count("\\n")', 'line_no = self.code[:self.pos + 1].count("\\n")', 1),
     # negative controls: semantically neutral edits, every check must stay green
     ("NEG-rename-local", "C06", "metacommand_impl.py", "    value = wait(arg_token.resolve(state))\n\n    if not isinstance(value, int):", "    value = wait(arg_token.resolve(state))\n    _unused = 1\n\n    if not isinstance(value, int):", 0),
     ("NEG-candidate-order", "C03", "types.py", "            state[\"local_symbol_prefix\"] + self.name,\n            state[\"internal_symbol_prefix\"] + self.name\n", "            state[\"internal_symbol_prefix\"] + self.name,\n            state[\"local_symbol_prefix\"] + self.name\n", 0),
